@@ -9,9 +9,9 @@
    M' = P M P^dagger for the permutation unitary P = fpermM tau), pi = dperm 4 N order is
    basis.remap_pauli_basis_elements.  The "from scratch" quantities are those of the numeric engine
    Model/Numeric.v (C01), evaluated on the data of the remapped pulse.                         *)
-From Coq Require Import String ZArith Reals List Sorted.
+From Coq Require Import String ZArith Reals List Sorted Bool.
 From FF Require Import Base.Ops Inst.RInst Base.RAlg Spec.Kron2 Spec.DigitPerm Spec.StrSort
-     Model.Numeric Model.Remap Model.Tie.C06 Proofs.RemapIdx Proofs.RemapCov Proofs.Remap Proofs.RemapFinal Proofs.RemapEx.
+     Model.Numeric Model.Remap Model.Tie.C06 Proofs.RemapIdx Proofs.RemapCov Proofs.Remap Proofs.RemapFinal Proofs.RemapCompose Proofs.RemapEx.
 (* the comparison functions of the correspondence check are built with this file's dependency cone *)
 From FF Require Corr.RemapObs.
 Import ListNotations.
@@ -68,6 +68,12 @@ Theorem C06_structure : forall p r order dq mapping,
     (mapping = None -> n_ids r = n_ids p /\ c_ids r = c_ids p).
 Proof. exact remap_structure_final. Qed.
 Print Assumptions C06_structure.
+
+(* with an identifier mapping the identifiers of the remapped pulse are distinct (the code rejects mappings that are
+   not one-to-one since 510524e) *)
+Theorem C06_ids_distinct : forall p r order dq mapping, rremap p order dq mapping = Some r ->
+  forall m, mapping = Some m -> NoDup (c_ids r) /\ NoDup (n_ids r).
+Proof. exact remap_ids_nodup_final. Qed.
 
 (* --- spectral data carried over diagonalizes the remapped Hamiltonian --- *)
 Theorem C06_spectral : forall p r order dq mapping,
@@ -175,17 +181,40 @@ Theorem C06_identity_partial : forall (p r : rpulse) dq N,
 Proof. exact remap_id_fields. Qed.
 Print Assumptions C06_identity_partial.
 
-(* full statements of which only the parts above are proved (see docs/notes/C06.md):
-   record-level composition and identity for every cache slot *)
-Definition C06_compose_full : Prop := forall (p q r r' : rpulse) o1 o2 dq m1 m2 m12,
-  rremap p o1 dq (Some m1) = Some q -> rremap q o2 dq (Some m2) = Some r ->
-  (forall k v, lookup m12 k = Some v <-> exists u, lookup m1 k = Some u /\ lookup m2 u = Some v) ->
-  rremap p (sel 0 o1 o2) dq (Some m12) = Some r' ->
-  c_opers r = c_opers r' /\ n_opers r = n_opers r' /\ c_ids r = c_ids r' /\ n_ids r = n_ids r' /\
-  c_coeffs r = c_coeffs r' /\ n_coeffs r = n_coeffs r' /\ eigvals r = eigvals r' /\ eigvecs r = eigvecs r' /\
-  propagators r = propagators r' /\ total_propagator r = total_propagator r' /\ omega r = omega r' /\
-  total_phases r = total_phases r' /\ filter_function r = filter_function r' /\ tpl r = tpl r' /\
-  control_matrix r = control_matrix r'.
+(* --- record-level composition: remap (remap p o1 m1) o2 m2 and remap p (o1[o2[.]]) (m2 o m1) agree on every field
+       and every cache slot.  [remap_facts p r ...] is what a successful remap looks like (C06_remap_inv); the index
+       hypotheses hold when identifiers are sorted and distinct and the mappings compose (C06_compose_indices);
+       the cache of p must be closed (omega + Liouville propagator never cached without phases / FF / CM -- otherwise
+       the two-step remap drops the Liouville propagator, see docs/notes/C06.md) --- *)
+Theorem C06_remap_inv : forall p order dq mapping r, rremap p order dq mapping = Some r ->
+  exists cids nids cidx nidx, remap_facts p r order dq mapping (ilog dq (p_d p)) cids nids cidx nidx.
+Proof. exact remap_inv. Qed.
+Theorem C06_compose_indices : forall (ks12 : list string) i1, NoDup ks12 -> is_perm (length ks12) i1 ->
+  let ks2 := sel EmptyString ks12 i1 in
+  sel 0 i1 (argsort ks2) = argsort ks12 /\
+  sel EmptyString ks2 (argsort ks2) = sel EmptyString ks12 (argsort ks12).
+Proof. exact compose_indices. Qed.
+Theorem C06_compose_record : forall (p q r r' : rpulse) o1 o2 dq m1 m2 m12 N c1 n1 c2 n2 c12 n12 ci1 ni1 ci2 ni2 ci12 ni12,
+  remap_facts p q o1 dq m1 N c1 n1 ci1 ni1 -> remap_facts q r o2 dq m2 N c2 n2 ci2 ni2 ->
+  remap_facts p r' (sel 0 o1 o2) dq m12 N c12 n12 ci12 ni12 -> 0 < dq ->
+  ci12 = sel 0 ci1 ci2 -> ni12 = sel 0 ni1 ni2 ->
+  sel EmptyString c2 ci2 = sel EmptyString c12 ci12 -> sel EmptyString n2 ni2 = sel EmptyString n12 ni12 ->
+  is_perm (length (c_ids p)) ci1 -> is_perm (length (c_ids p)) ci2 ->
+  is_perm (length (n_ids p)) ni1 -> is_perm (length (n_ids p)) ni2 ->
+  (length (c_opers p) = length (c_ids p) /\ length (c_coeffs p) = length (c_ids p)) ->
+  (length (n_opers p) = length (n_ids p) /\ length (n_coeffs p) = length (n_ids p)) ->
+  (forall Bm, control_matrix p = Have Bm -> is_arr (length (n_ids p)) (4 ^ N) Bm) ->
+  (forall L, tpl p = Have L -> is_arr (4 ^ N) (4 ^ N) L) ->
+  (forall Fm, filter_function p = Have Fm -> is_arr (length (n_ids p)) (length (n_ids p)) Fm) ->
+  (has_liou p && cached (tpl p) = true ->
+     (has_om p && cached (total_phases p)) || (has_om p && cached (filter_function p)) || has_cm p = true) ->
+  c_opers r = c_opers r' /\ n_opers r = n_opers r' /\ (c_ids r = c_ids r' /\ n_ids r = n_ids r') /\
+  (c_coeffs r = c_coeffs r' /\ n_coeffs r = n_coeffs r') /\ (p_dt r = p_dt r' /\ p_d r = p_d r' /\ btype r = btype r') /\
+  (eigvals r = eigvals r' /\ eigvecs r = eigvecs r' /\ propagators r = propagators r' /\ total_propagator r = total_propagator r') /\
+  (omega r = omega r' /\ total_phases r = total_phases r' /\ filter_function r = filter_function r') /\
+  control_matrix r = control_matrix r' /\ tpl r = tpl r'.
+Proof. exact compose_record. Qed.
+Print Assumptions C06_compose_record.
 
 (* --- the hypotheses are satisfiable --- *)
 Example C06_ex_remap_succeeds :
